@@ -15,14 +15,15 @@ KNOWN = {"CF18": "CF18"}
 # VERIF_C18_FIXED=1 selects TRUE without editing (bin/mutcheck notes/c18_fix_CF18.diff C18 with VERIF_C18_FIXED=1).
 PLAIN_ACCEPTED = os.environ.get("VERIF_C18_FIXED", "1") == "1"   # CF18 repaired in /repo by a543e46
 
-INV_DEC = "TypeOK InvDocumentedSyntax InvBuildResult InvDecision InvNoLeak InvPerConnection InvContainsAgree InvListening InvServable"
+INV_DEC = "TypeOK InvDocumentedSyntax InvBuildResult InvAllowlistInForce InvDecision InvNoLeak InvPerConnection InvContainsAgree InvListening InvServable"
 CHUNK_LINES = 60000
 
 
 def cfg(name, spec="Spec", inv=INV_DEC, props=None, sym=False, post=False, plain=None, **kw):
     plain = PLAIN_ACCEPTED if plain is None else plain
     base = dict(W=4, Conns="{1}", Paths='{"metrics"}', PlainAccepted="TRUE" if plain else "FALSE", MaxFaults=0, MaxGets=1, MaxBumps=0,
-                MaxQ=2, Reuse="FALSE", ExitOnError="FALSE", Serial="FALSE", ConfigMode='"nested"', PeerMode='"two"')
+                MaxQ=2, Reuse="FALSE", ExitOnError="FALSE", Serial="FALSE", ListenerSetterResetsAllowlist="FALSE", ConfigMode='"nested"',
+                PeerMode='"two"', MaxCalls=4)
     base.update(kw)
     if plain and "InvDocumentedSyntax" in inv:
         inv = inv.replace("InvDocumentedSyntax", "InvDocumentedSyntax InvStrictSyntax")
@@ -100,8 +101,8 @@ def run_and_validate(chk, mode_args, trace, what):
     return summ
 
 
-def export_configs(chk, name, mode):
-    r = vlib.tlc_mc(SPEC, "MCScrapeEndpoint", cfg(name, spec="ExportSpec", inv="Emit", ConfigMode='"%s"' % mode, PeerMode='"all"'),
+def export_configs(chk, name, mode, **kw):
+    r = vlib.tlc_mc(SPEC, "MCScrapeEndpoint", cfg(name, spec="ExportSpec", inv="Emit", ConfigMode='"%s"' % mode, PeerMode='"all"', **kw),
                     workers=1, timeout=900, coverage=False, tag=name)
     ps = vlib.replay_lines(r["out"])
     if not ps or r["error"]:
@@ -126,6 +127,10 @@ def run(chk):
     scopes = [
         # every allowlist of <= 2 entries (plain / CIDR incl. host bits set / malformed) x every peer x every path class
         ("decision_all2", cfg("decision_all2", ConfigMode='"all2"', **dec), 8, {}),
+        # the builder as a history of calls: every chain of <= 4 (5) calls over {with_http_listener, unrelated setter, add_allowed_address(e1),
+        # add_allowed_address(e2)} in ANY order and repeated x every peer: all entries added are in force, wherever the address was set
+        ("builder_histories", cfg("builder_histories", ConfigMode='"hist"', MaxCalls=5 if thorough else 4, spec="DecSpec", Conns="{1}",
+                                  Paths='{"health","metrics"}', MaxGets=1, PeerMode='"all"'), 8, {}),
         # <= 5 faults on 3 connections around <= 2 well-formed GETs: nothing a client does stops the others being served
         ("faults_3conn", cfg("faults_3conn", Conns="{c1,c2,c3}", sym=True, MaxFaults=5, MaxGets=2 if thorough else 1), 8, {"Bump"}),
         ("faults_2conn_keepalive", cfg("faults_2conn", Conns="{c1,c2}", sym=True, MaxFaults=5, MaxGets=3, MaxQ=3), 8, {"Bump"}),
@@ -152,9 +157,13 @@ def run(chk):
             return
         chk.log("TLC %s: %d distinct states (%d generated), depth %d, %.0fs" % (name, r["distinct"], r["generated"], r["depth"], r["wall"]))
     # the model can tell: design mutations must be rejected (non-vacuity of the listener properties)
-    for name, kw, expect in (("wit_exit_on_error", dict(ExitOnError="TRUE"), "InvListening"),
-                             ("wit_serial", dict(Serial="TRUE"), "InvServable")):
-        r = vlib.tlc_mc(SPEC, "MCScrapeEndpoint", cfg(name, Conns="{1,2}", MaxFaults=3, MaxGets=2, **kw), workers=4, timeout=600,
+    for name, kw, expect in (("wit_exit_on_error", dict(ExitOnError="TRUE", Conns="{1,2}", MaxFaults=3, MaxGets=2), "InvListening"),
+                             ("wit_serial", dict(Serial="TRUE", Conns="{1,2}", MaxFaults=3, MaxGets=2), "InvServable"),
+                             # with_http_listener replacing the whole listener configuration (allowlist included): an entry added
+                             # before it is lost and a peer outside every listed network is served
+                             ("wit_listener_resets", dict(ListenerSetterResetsAllowlist="TRUE", ConfigMode='"hist"', MaxCalls=3, inv="TypeOK InvNoLeak",
+                                                          **dec), "InvNoLeak")):
+        r = vlib.tlc_mc(SPEC, "MCScrapeEndpoint", cfg(name, **kw), workers=4, timeout=600,
                         coverage=False, tag=name)
         if r["invariant"] != expect:
             chk.tool_error("model lost the witness %s (expected %s violated, got %s / %s)" % (name, expect, r["invariant"], r["error"]), r["out"][-2000:])
@@ -173,7 +182,7 @@ def run(chk):
     # ---------------------------------------------------------------- 3. spec -> impl: every configuration of the decision scope
     # on a real listener, every peer of the W-bit space asking over a real socket; TraceScrapeEndpoint re-decides every answer
     one = export_configs(chk, "x_all1", "all1")
-    two = [p for p in export_configs(chk, "x_two", "all2" if thorough else "aligned2") if len(p["entries"]) == 2]
+    two = [p for p in export_configs(chk, "x_two", "all2" if thorough else "aligned2") if len(p["hist"]) == 3]
     rnd = random.Random(chk.seed)
     if not thorough:
         # quick: all pairs of proper blocks and plain addresses would be 2209 listeners; keep every nested / equal / disjoint
@@ -192,7 +201,17 @@ def run(chk):
                           chk.path("vec_one.ndjson"), "decision vectors (<= 1 entry, all paths)")
     s2 = run_and_validate(chk, ["replay", "--in", v2], chk.path("vec_two.ndjson"), "decision vectors (2 entries)")
     chk.notes["vectors"] = {"one_entry": s1, "two_entries": s2}
-    chk.cov["samples"].append({"source": "TLC-exported configuration", "entries": two[0]["entries"]})
+    chk.cov["samples"].append({"source": "TLC-exported configuration", "hist": two[0]["hist"]})
+    # builder call histories: every chain of <= 4 (5) calls that sets the listen address at least once, executed on the real builder
+    hs = [p for p in export_configs(chk, "x_hist", "hist", MaxCalls=5 if thorough else 4) if any(c["op"] == "listen" for c in p["hist"])]
+    vh_ = chk.path("vectors_hist.ndjson")
+    with open(vh_, "w") as f:
+        for p in hs:
+            f.write(json.dumps(p, separators=(",", ":")) + "\n")
+    chk.log("TLC exported %d builder call histories" % len(hs))
+    s5 = run_and_validate(chk, ["replay", "--in", vh_], chk.path("vec_hist.ndjson"), "builder call histories (any order of with_http_listener / add_allowed_address)")
+    chk.notes["vectors"]["histories"] = s5
+    chk.cov["samples"].append({"source": "TLC-exported builder history", "calls": [(c["op"], c["e"]["k"]) for c in hs[len(hs) // 2]["hist"]]})
 
     # ---------------------------------------------------------------- 4. spec -> impl: TLC behaviours as client programs
     progs, seen = [], set()
@@ -233,8 +252,8 @@ def run(chk):
         e.pop("prog", None)
         if "peer" in e:
             e["peer"] = "".join(str(b) for b in e["peer"])
-        for x in e.get("entries", []):
-            x["a"] = "".join(str(b) for b in x["a"])
+        for x in e.get("hist", []):
+            x["e"]["a"] = "".join(str(b) for b in x["e"]["a"])
     chk.cov["samples"].append({"source": "recorded random run (first events)", "events": lines})
     chk.cov["rule"] = ("exhaustive TLC: every allowlist of <= 2 entries over the 4-bit address space x every peer x path class "
                        "(mirror of add_allowed_address / check_tcp_allowed / handle_http_request == documented meaning), all "
